@@ -35,7 +35,14 @@ type c10Case struct {
 
 var c10Alphabet = []string{"a", "b", "c", "x", "1", " ", " ", "\t", "\"", "\\", "\x01", "\x07", "\x1b", "\x1f", "\x7f", "é", "世", "ü", "*", "?", "[", "]", "'", "-", "#", "!", "$", "&", "(", ")", ";", "~", "^", "{", "}", "=", ",", "+", "@", "%"}
 
+// c10SpecialNames are legal Git path components that look like something else:
+// relative-path syntax, option syntax, hidden files.
+var c10SpecialNames = []string{"..x", "...", "..cache", ".hidden", ".x..", "-", "--", "-n", "~", "a..b"}
+
 func genComponent(rt *rapid.T) string {
+	if rapid.IntRange(0, 7).Draw(rt, "special") == 0 {
+		return rapid.SampledFrom(c10SpecialNames).Draw(rt, "specialname")
+	}
 	n := rapid.IntRange(1, 5).Draw(rt, "complen")
 	var b strings.Builder
 	for i := 0; i < n; i++ {
